@@ -270,13 +270,14 @@ Section Machine.
   Definition save_prog (t : N) (files dirs : items) : prog :=
     fun w => seq2 (add_prog true t files) (mem_adds (t + nlen (filter (absent w) files)) dirs) w.
 
-  (* transfer(src, local dest, {dir}, shallow=False): existence query, missing files, directory last.
+  (* transfer(src, local dest, {dir}, shallow=False): existence query, missing files, directory last;
+     _do_transfer adds with check_exists=False (only what the query reported missing is added).
      [qs] = the order in which the destination is queried (iteration order of a Python set: an
      oracle argument); [mem] = the directory object comes from the in-memory staging store. *)
   Definition dir_add (mem : bool) (t : N) (d : oid * bytes) : prog :=
-    fun w => if absent w d then (if mem then mem_add_prog t d w else add_prog true t [d] w) else [].
+    fun w => if absent w d then (if mem then mem_add_prog t d w else add_prog false t [d] w) else [].
   Definition files_add (t : N) (files : items) : prog :=
-    fun w => match filter (absent w) files with [] => [] | new => add_prog true t new w end.
+    fun w => match filter (absent w) files with [] => [] | new => add_prog false t new w end.
   Definition transfer_prog (mem : bool) (t : N) (qs : list oid) (files : items) (d : oid * bytes) : prog :=
     seq2 (heal_prog qs)
          (fun w => seq2 (files_add t files) (dir_add mem (t + nlen (filter (absent w) files)) d) w).
